@@ -39,3 +39,14 @@ Record config := {
   deco_nested : deco_action;
   deco_level : nat
 }.
+
+(* ---- the cache that chooses the factory serving a function (malt/pyct/cache.py
+   CodeObjectCache as used by PyToPy.transform_function; generated into
+   coq/Generated/C09_cache_gen.v by tools/translate/c09_cache.py) ---- *)
+(* what _get_key makes of a function *)
+Inductive key_src := KCode      (* entity.__code__: code objects hash and compare BY VALUE *)
+                   | KCodeId.   (* id(entity.__code__): the address of the code object *)
+(* the mapping behind self._cache *)
+Inductive store_kind := SWeakKeys   (* weakref.WeakKeyDictionary(): the entry goes when the key object dies *)
+                      | SStrong.    (* a plain dict *)
+Record cache_config := { ck_key : key_src; ck_store : store_kind }.
